@@ -223,7 +223,10 @@ def cartq_enum(tier):
             for row in range(-n, n + 1):
                 w = 1.0 if row % 2 else 2.5
                 h = w if periodic else (0.75 if row % 3 else 1.25)
-                cases.append({"through": through, "periodic": periodic, "row": row, "n": n, "w": w, "h": h})
+                for via in (False, True):
+                    # via: built at unit pitch, then changePitch(w, h) - the route reactorBlueprint takes when the
+                    # grid blueprint has no lattice pitch ("This also scales the offset")
+                    cases.append({"through": through, "periodic": periodic, "row": row, "n": n, "w": w, "h": h, "viaChangePitch": via})
     return cases
 
 
@@ -233,9 +236,15 @@ def cartq_execute(case):
     out = Out()
     through, periodic, jrow, n, w, h = case["through"], case["periodic"], case["row"], case["n"], case["w"], case["h"]
     sym = "quarter %s%s" % ("periodic" if periodic else "reflective", " through center" if through else "")
-    g = grids.CartesianGrid.fromRectangle(w, h, numRings=3, symmetry=sym, isOffset=not through)
+    if case.get("viaChangePitch"):
+        g = grids.CartesianGrid.fromRectangle(1.0, 1.0, numRings=3, symmetry=sym, isOffset=not through)
+        g.changePitch(w, h)
+        sym += " (pitch set by changePitch)"
+    else:
+        g = grids.CartesianGrid.fromRectangle(w, h, numRings=3, symmetry=sym, isOffset=not through)
     out.check(g.symmetry.isThroughCenterAssembly == through and g._isThroughCenter() == through, "cart/centre-style",
               "symmetry %r: through-centre flags %r %r" % (sym, g.symmetry.isThroughCenterAssembly, g._isThroughCenter()))
+    out.check(_close(g.pitch, (w, h), 1e-12 * max(w, h)), "cart/pitch", lambda: "%s: pitch %r expected %r" % (sym, g.pitch, (w, h)))
     ox, oy = (0.0, 0.0) if through else (w / 2.0, h / 2.0)
     tol = 1e-9 * max(w, h) * (n + 1)
     out.evals = 2 * n + 1
@@ -243,7 +252,7 @@ def cartq_execute(case):
     for i in range(-n, n + 1):
         x, y = i * w + ox, jrow * h + oy
         c = g.getCoordinates((i, jrow, 0))
-        out.check(_close(c, (x, y, 0.0), tol), "cart/centre", lambda: "cell %s centre %s expected %s" % ((i, jrow), list(c), (x, y)))
+        out.check(_close(c, (x, y, 0.0), tol), "cart/centre", lambda: "%s: cell %s centre %s expected %s" % (sym, (i, jrow), list(c), (x, y)))
         if periodic:
             images = [(-y, x), (-x, -y), (y, -x)]
         else:
@@ -368,11 +377,13 @@ def _block_spec_strategy():
         "xyz": st.tuples(st.floats(-8, 8), st.floats(-8, 8), st.floats(-3, 3)).map(list),
         "clad": st.sampled_from([False, False, True]),
     })
-    bparam = st.fixed_dictionaries({"kind": st.sampled_from(["list", "array", "list", "array", "scalar", "none", "empty", "short"]), "vals": _vec_strategy()})
+    bparam = st.fixed_dictionaries({"kind": st.sampled_from(["list", "array", "table_list", "table_array", "list", "array", "scalar", "none", "empty", "short"]),
+                                    "vals": _vec_strategy(), "width": st.integers(1, 4)})
     return st.fixed_dictionaries({
         "pitch": st.floats(0.3, 3.0),
         "cornersUp": st.booleans(),
         "grid": st.sampled_from([True, True, True, True, True, False]),
+        "stored": st.sampled_from([True, False]),
         "groups": st.lists(group, min_size=1, max_size=4),
         "free": st.lists(free, min_size=0, max_size=3),
         "defaultChild": st.booleans(),
@@ -405,12 +416,13 @@ _FIXED_SPEC = {
     ],
     "free": [{"xyz": [0.4, -1.1, 0.7], "clad": False}, {"xyz": [-2.0, 0.5, 0.0], "clad": True}],
     "defaultChild": True,
-    "boundary": [{"kind": ("list", "array")[n % 2], "vals": [float(10 * n + m) for m in range(6)]} for n in range(N_BOUNDARY)],
+    "boundary": [{"kind": ("list", "array", "table_array", "table_list")[n % 4], "vals": [float(10 * n + m) for m in range(6)], "width": 1 + n % 3}
+                 for n in range(N_BOUNDARY)],
     "disp": [0.3, -1.7], "orient0": 0,
 }
 
 
-_FIXED_SPEC_FLATS = dict(_FIXED_SPEC, cornersUp=False, pitch=0.8, orient0=2)
+_FIXED_SPEC_FLATS = dict(_FIXED_SPEC, cornersUp=False, pitch=0.8, orient0=2, stored=False)
 
 
 def asm_enum(tier):
@@ -451,7 +463,7 @@ class _BlockModel:
         for n in range(nparams):
             bp = spec["boundary"][n % len(spec["boundary"])]
             vals = [v + 100.0 * bidx for v in bp["vals"]]
-            self.boundary.append((bp["kind"], vals))
+            self.boundary.append((bp["kind"], vals, bp.get("width", 2)))
         self.disp = tuple(spec["disp"]) if spec["disp"] is not None else None
         self.orient0 = spec["orient0"]
 
@@ -470,6 +482,10 @@ class _BlockModel:
     def boundary_now(self, vals):
         return [vals[(m - self.K) % 6] for m in range(6)]
 
+    def table_now(self, vals, width):
+        rows = _table(vals, width)
+        return [rows[(m - self.K) % 6] for m in range(6)]
+
     def disp_now(self):
         return hm.rot_xy(self.disp[0], self.disp[1], 60.0 * (self.K % 6))
 
@@ -483,8 +499,18 @@ def _boundary_names(block):
     return list(block.p.paramDefs.atLocation(ParamLocation.CORNERS).names) + list(block.p.paramDefs.atLocation(ParamLocation.EDGES).names)
 
 
-def _boundary_value(kind, vals):
+def _table(vals, width):
+    """6 x width table: ``width`` distinguishable values per corner/edge."""
+    return [[v + 0.125 * (c + 1) * (1 + abs(v)) for c in range(width)] for v in vals]
+
+
+def _boundary_value(kind, vals, width=2):
     import numpy as np
+
+    if kind == "table_list":
+        return _table(vals, width)
+    if kind == "table_array":
+        return np.array(_table(vals, width))
 
     if kind == "list":
         return list(vals)
@@ -506,7 +532,14 @@ def _build_block(spec, bidx):
     b = blocks.HexBlock("fuel", height=10.0)
     names = _boundary_names(b)
     model = _BlockModel(spec, bidx, len(names))
-    g = grids.HexGrid.fromPitch(spec["pitch"], numRings=3, armiObject=b, cornersUp=spec["cornersUp"]) if spec["grid"] else None
+    stored = spec.get("stored", True)
+    # stored=False: lattice made with numRings=0 as autoCreateSpatialGrids does, locations made with the public constructors
+    # (what rotateIndex itself returns) so that the grid holds no stored locator objects
+    g = grids.HexGrid.fromPitch(spec["pitch"], numRings=3 if stored else 0, armiObject=b, cornersUp=spec["cornersUp"]) if spec["grid"] else None
+
+    def at(i, j):
+        return g[i, j, 0] if stored else grids.IndexLocation(i, j, 0, g)
+
     comps = []
     for n, (kind, clad, payload) in enumerate(model.children):
         mult = len(payload) if kind in ("multi", "single") else 1
@@ -523,22 +556,22 @@ def _build_block(spec, bidx):
             continue
         if kind == "multi":
             loc = grids.MultiIndexLocation(g)
-            loc.extend([g[i, j, 0] for i, j in payload])
+            loc.extend([at(i, j) for i, j in payload])
             c.spatialLocator = loc
         elif kind == "single":
-            c.spatialLocator = g[payload[0][0], payload[0][1], 0]
+            c.spatialLocator = at(payload[0][0], payload[0][1])
         elif kind == "free":
             c.spatialLocator = grids.CoordinateLocation(payload[0], payload[1], payload[2], g)
     if g is not None:
         b.spatialGrid = g
     for n, name in enumerate(names):
-        kind, vals = model.boundary[n]
-        value = _boundary_value(kind, vals)
+        kind, vals, width = model.boundary[n]
+        value = _boundary_value(kind, vals, width)
         if value is not None:
             b.p[name] = value
             if kind == "scalar" and getattr(b.p[name], "ndim", None) == 0:
                 # array-typed parameter (numpy setter): a scalar is not an input its writers produce; give it a vector
-                model.boundary[n] = ("array", vals)
+                model.boundary[n] = ("array", vals, width)
                 b.p[name] = _boundary_value("array", vals)
     if model.disp is not None:
         b.p.displacementX, b.p.displacementY = model.disp
@@ -614,9 +647,17 @@ def _check_block(out, b, comps, model, names, where):
                 if w is not None:
                     out.check((loc.i, loc.j, loc.k) == w, "block/getPinLocations", lambda: "%s: pin %d at %s expected %s" % (where, n, (loc.i, loc.j, loc.k), w))
     # per-corner / per-edge data
-    for name, (kind, vals) in zip(names, model.boundary):
+    for name, (kind, vals, width) in zip(names, model.boundary):
         now = b.p[name]
-        if kind in ("list", "array"):
+        if kind in ("table_list", "table_array"):
+            want = model.table_now(vals, width)
+            try:
+                rows = [[float(x) for x in row] for row in now]
+            except TypeError:
+                rows = None
+            out.check(rows == want, "block/boundary-table-rows",
+                      lambda: "%s: %s (6 x %d values) after %d steps is %s, whole rows new[r] = old[(r-k) mod 6] give %s" % (where, name, width, K, rows if rows is not None else now, want))
+        elif kind in ("list", "array"):
             want = model.boundary_now(vals)
             good = isinstance(now, (list, np.ndarray)) and len(now) == 6 and all(float(x) == y for x, y in zip(now, want))
             out.check(good, "block/boundary-vector", lambda: "%s: %s after %d steps is %s, new[i] = old[(i-k) mod 6] gives %s (start %s)" % (where, name, K, list(now) if good or hasattr(now, "__len__") else now, want, vals))
@@ -657,7 +698,8 @@ def blockrot_execute(case):
         raise AssertionError("expected %d corner/edge parameters, armi defines %d" % (N_BOUNDARY, len(built[0][3])))
     off_axis = spec["grid"] and any(tuple(c) != (0, 0) for grp in spec["groups"] for c in (grp["cells"][:1] if grp["single"] else grp["cells"]))
     out.nontrivial = bool(off_axis) and any(s["k"] % 6 and not s.get("half") for s in case["steps"])
-    out.label("blocks:%d" % nb, "cornersUp" if spec["cornersUp"] else "flatsUp", "grid" if spec["grid"] else "no-grid")
+    out.label("blocks:%d" % nb, "cornersUp" if spec["cornersUp"] else "flatsUp",
+              ("grid" if spec.get("stored", True) else "grid-without-stored-locators") if spec["grid"] else "no-grid")
     if spec["grid"]:
         kinds = {m[0] for m in built[0][2].children}
         out.label(*sorted("child:" + k for k in kinds))
